@@ -25,7 +25,7 @@ PROPS = 'C16/Props.v'
 DRIVER = 'harness/impl/c16_driver.py'
 
 ABSTRACT_KINDS = ('csr', 'csc', 'aslinop', 'linop')
-DENSE_KINDS = ('dense', 'denseF')
+DENSE_KINDS = ('dense', 'denseF', 'denseT')     # ndarray in C order, F order, transposed view
 U = 2.0 ** -53
 
 
@@ -298,6 +298,8 @@ def check_property_on_impl(c, res):
     if not np.array_equal(got, want):
         w = np.argwhere(got != want)[0]
         return ('value', 'entry %s is %d, the dense definition gives %d' % (tuple(int(t) for t in w), got[tuple(w)], want[tuple(w)]))
+    if res.get('mutated'):
+        return ('operand-modified', '%s altered its operands (%s) bitwise' % (c['fam'], ', '.join(res['mutated'][:4])))
     return None
 
 
@@ -437,36 +439,53 @@ def dd_matrix(rng, n, sym, kind):
     return {'kind': kind, 'r': n, 'c': n, 'data': [v for row in M for v in row]}
 
 
+SOLVER_DENSE_LAYOUTS = ('dense', 'denseF', 'denseT')     # C order, F order, transposed view
+
+
 def gen_solver_cases(ctx):
+    """Solver-factory cases.  'mats' are distinct matrix objects (dense in C order, F order or as a
+    transposed view; csr; csc); the factories refer to them by index so that the SAME array object is
+    handed over more than once (make_solver twice, make_kronecker_solver(A, A), fastdiag with the same
+    (K, M) pair in several directions and with K is M)."""
     rng = ctx.rng
     mult = 5 if ctx.tier == 'thorough' else 1
     cases = []
-    for i in range(60 * mult):
+
+    def skind():
+        return rng.choice(SOLVER_DENSE_LAYOUTS + SOLVER_DENSE_LAYOUTS + ('csr', 'csc'))
+
+    for i in range(72 * mult):
         n = rng.randint(1, 6)
         cls = ['general', 'symmetric', 'spd', 'symmetric_indefinite'][i % 4]
-        kind = rng.choice(['dense', 'dense', 'csr', 'csc'])
-        B = dd_matrix(rng, n, cls != 'general', kind)
-        flags = {}
-        if cls == 'spd':
-            flags = {'spd': True}
-        elif cls == 'symmetric':
-            flags = {'symmetric': True}
-        elif cls == 'symmetric_indefinite':
-            flags = {'symmetric': True}
+        B = dd_matrix(rng, n, cls != 'general', skind())
+        if cls == 'symmetric_indefinite':
             k = rng.randrange(n)      # one negative pivot: indefinite, still strictly diagonally dominant
             B['data'][k * n + k] = -B['data'][k * n + k]
-        cases.append({'fam': 'solver', 'cls': cls, 'B': B, 'x': rx(rng, n), 'how': rhow(rng), **flags})
-    for i in range(40 * mult):
+        own = {'general': {}, 'symmetric': {'symmetric': True}, 'spd': {'spd': True},
+               'symmetric_indefinite': {'symmetric': True}}[cls]
+        legal = [{}, own] + ([{'symmetric': True}] if cls == 'spd' else [])
+        builds = [own] if rng.random() < 0.3 else [rng.choice(legal) for _ in range(rng.randint(2, 3))]
+        cases.append({'fam': 'solver', 'cls': '%s:%s:x%d' % (cls, B['kind'], len(builds)), 'mats': [B], 'B': 0,
+                      'builds': builds, 'x': rx(rng, n), 'how': rhow(rng)})
+    for i in range(54 * mult):
+        nm = rng.randint(1, 2)
+        mats = [dd_matrix(rng, rng.randint(1, 4), rng.random() < 0.4, skind()) for _ in range(nm)]
         nf = rng.randint(1, 3)
-        Bs = [dd_matrix(rng, rng.randint(1, 4), rng.random() < 0.4, rng.choice(['dense', 'csr', 'csc'])) for _ in range(nf)]
-        N = int(np.prod([b['r'] for b in Bs]))
-        cases.append({'fam': 'kronsolver', 'cls': kind_class(Bs), 'Bs': Bs, 'x': rx(rng, N), 'how': rhow(rng)})
-    for i in range(36 * mult):
+        idx = [rng.randrange(nm) for _ in range(nf)]
+        if i % 3 == 0 and nf >= 2:
+            idx = [idx[0]] * nf                                   # make_kronecker_solver(A, A[, A])
+        N = int(np.prod([mats[k]['r'] for k in idx]))
+        shared = len(set(idx)) < len(idx)
+        cases.append({'fam': 'kronsolver', 'cls': '%s:%s' % ('shared' if shared else 'distinct',
+                      '+'.join(sorted({mats[k]['kind'] for k in idx}))), 'mats': mats, 'idx': idx,
+                      'x': rx(rng, N), 'how': rhow(rng)})
+    for i in range(42 * mult):
         dim = 1 + i % 3
-        KM = []
-        for _d in range(dim):
+        npairs = rng.randint(1, dim)
+        mats, pairs = [], []
+        for _p in range(npairs):
             n = rng.randint(1, 4 if dim == 3 else 5)
-            kind = rng.choice(['dense', 'dense', 'csr', 'csc'])
+            kind = skind()
             # stiffness-like and mass-like tridiagonal SPD matrices with random (dyadic) element sizes
             h = [rng.choice([1, 2, 4]) for _ in range(n + 1)]
             K = [[0] * n for _ in range(n)]
@@ -477,23 +496,31 @@ def gen_solver_cases(ctx):
                         if 0 <= a < n and 0 <= b < n:
                             K[a][b] += (4 // h[e]) * (1 if a == b else -1)      # 4/h
                             Mm[a][b] += h[e] * (2 if a == b else 1)             # h/6 * (2,1), scaled by 6
-            KM.append([{'kind': kind, 'r': n, 'c': n, 'data': [v for row in K for v in row]},
-                       {'kind': kind, 'r': n, 'c': n, 'data': [v for row in Mm for v in row]}])
-        N = int(np.prod([k['r'] for k, _ in KM]))
-        cases.append({'fam': 'fastdiag', 'cls': 'dim%d:%s' % (dim, kind_class([k for k, _ in KM])), 'KM': KM,
+            mats.append({'kind': kind, 'r': n, 'c': n, 'data': [v for row in Mm for v in row]})
+            if rng.random() < 0.2:
+                pairs.append((len(mats) - 1, len(mats) - 1))       # K is M (same object): pencil (M, M)
+            else:
+                mats.append({'kind': kind, 'r': n, 'c': n, 'data': [v for row in K for v in row]})
+                pairs.append((len(mats) - 1, len(mats) - 2))
+        KM = [list(pairs[d]) if d < npairs else list(rng.choice(pairs)) for d in range(dim)]
+        N = int(np.prod([mats[k]['r'] for k, _ in KM]))
+        shared = len({tuple(p) for p in KM}) < dim or any(k == m for k, m in KM)
+        cases.append({'fam': 'fastdiag', 'cls': 'dim%d:%s:%s' % (dim, 'shared' if shared else 'distinct',
+                      '+'.join(sorted({mats[k]['kind'] for k, _ in KM}))), 'mats': mats, 'KM': KM,
                       'x': rx(rng, N), 'how': rhow(rng)})
     return cases
 
 
 def solver_matrix(c):
+    """The matrix the solver was built from, from the harness's own (snapshot) integer data."""
     if c['fam'] == 'solver':
-        return fr_mat(c['B'])
+        return fr_mat(c['mats'][c['B']])
     if c['fam'] == 'kronsolver':
-        return reduce(fkron, [fr_mat(b) for b in c['Bs']])
+        return reduce(fkron, [fr_mat(c['mats'][k]) for k in c['idx']])
     dim = len(c['KM'])
     tot = None
     for d in range(dim):
-        fs = [fr_mat(c['KM'][j][0 if j == d else 1]) for j in range(dim)]
+        fs = [fr_mat(c['mats'][c['KM'][j][0 if j == d else 1]]) for j in range(dim)]
         t = reduce(fkron, fs)
         tot = t if tot is None else [[a + b for a, b in zip(ra, rb)] for ra, rb in zip(tot, t)]
     return tot
@@ -512,45 +539,51 @@ def solver_tol(c, A, ynorm, bnorm):
     with n := max factor size and an extra factor cond(M)^dim <= 12^dim is used.
     The bound is never tuned: a wrong operator gives residuals of order ||b||."""
     if c['fam'] == 'solver':
-        n = c['B']['r']
+        n = c['mats'][c['B']]['r']
         return 8 * n ** 3 * 2 ** (n - 1) * U * float(norm_inf(A)) * ynorm
     if c['fam'] == 'kronsolver':
         tot = 0.0
-        conds = [float(norm_inf(fr_mat(b)) * inv_norm_bound(fr_mat(b))) for b in c['Bs']]
-        for b in c['Bs']:
+        Bs = [c['mats'][k] for k in c['idx']]
+        conds = [float(norm_inf(fr_mat(b)) * inv_norm_bound(fr_mat(b))) for b in Bs]
+        for b in Bs:
             n = b['r']
             tot += 8 * n ** 3 * 2 ** (n - 1) * U
         return tot * float(np.prod(conds)) * float(norm_inf(A)) * ynorm + 16 * U * bnorm
     dim = len(c['KM'])
-    n = max(k['r'] for k, _ in c['KM'])
+    n = max(c['mats'][k]['r'] for k, _ in c['KM'])
     return 64 * dim * n ** 3 * U * 12.0 ** dim * (float(norm_inf(A)) * ynorm + bnorm)
 
 
 def check_solver(c, res):
+    """(slug, text, worst residual/bound).  The reference matrix is the harness's own integer data
+    (the snapshot taken before anything was handed to the implementation)."""
     if res['status'] != 'Ok':
         return ('raises-' + res['status'].replace('Other:', ''),
                 '%s raised %s (%s) for a valid input' % (c['fam'], res['status'], res.get('msg', '')), None)
     A = solver_matrix(c)
     N = len(A)
     xs = c['x']['shape']
-    if res['shape'] != xs or res['opshape'] != [N, N]:
-        return ('shape', 'result shape %s / operator shape %s for a %dx%d matrix and right-hand side %s' % (
-            res['shape'], res['opshape'], N, N, xs), None)
     nc = xcols(c['x'])
-    ys = [Fraction(float.fromhex(h)) for h in res['hex']]
     worst = 0.0
-    for col in range(nc):
-        y = [ys[i * nc + col] for i in range(N)]
-        b = [Fraction(c['x']['data'][i * nc + col]) for i in range(N)]
-        resid = max(abs(sum(A[i][j] * y[j] for j in range(N)) - b[i]) for i in range(N))
-        ynorm = float(max(abs(v) for v in y))
-        bnorm = float(max(abs(v) for v in b))
-        tol = solver_tol(c, A, ynorm, bnorm)
-        ratio = float(resid) / tol if tol > 0 else (0.0 if resid == 0 else float('inf'))
-        worst = max(worst, ratio)
-        if resid > tol:
-            return ('residual', '%s: ||A y - b||_inf = %.3e exceeds the bound %.3e (column %d)' % (
-                c['fam'], float(resid), tol, col), worst)
+    for o in res['outs']:
+        if o['shape'] != xs or o['opshape'] != [N, N]:
+            return ('shape', '%s: result shape %s / operator shape %s for a %dx%d matrix and right-hand side %s' % (
+                o['stage'], o['shape'], o['opshape'], N, N, xs), None)
+        ys = [Fraction(float.fromhex(h)) for h in o['hex']]
+        for col in range(nc):
+            y = [ys[i * nc + col] for i in range(N)]
+            b = [Fraction(c['x']['data'][i * nc + col]) for i in range(N)]
+            resid = max(abs(sum(A[i][j] * y[j] for j in range(N)) - b[i]) for i in range(N))
+            ynorm = float(max(abs(v) for v in y))
+            bnorm = float(max(abs(v) for v in b))
+            tol = solver_tol(c, A, ynorm, bnorm)
+            ratio = float(resid) / tol if tol > 0 else (0.0 if resid == 0 else float('inf'))
+            worst = max(worst, ratio)
+            if resid > tol:
+                return ('residual', '%s (%s): ||A y - b||_inf = %.3e exceeds the bound %.3e (column %d); A is the matrix '
+                        'the solver was built from' % (c['fam'], o['stage'], float(resid), tol, col), worst)
+    if res.get('mutated'):
+        return ('operand-modified', '%s altered its operands: %s' % (c['fam'], '; '.join(res['mutated'][:4])), worst)
     return (None, None, worst)
 
 
@@ -668,8 +701,11 @@ def run(ctx):
     ctx.cov['rounding_bound'] = 'see solver_tol in harness/props/c16.py (8 n^3 2^(n-1) u ||A|| ||y|| per factorisation, times conditioning)'
     ctx.cov['largest_residual_over_bound'] = worst
     ctx.cov['rule'] = ('operator cases: random integer operands (|entry|<=3), 1..4 Kronecker factors with independent shapes and '
-                       'storage kinds (ndarray C/F, csr, csc, aslinearoperator, plain LinearOperator), f8/f4, x as vector/(n,1)/matrix '
-                       '(C/F order), variants N/T/H/TT/TH, dot/@/*; non-trivial = every case; distinct by operands and argument')
+                       'storage kinds (ndarray C/F/transposed view, csr, csc, aslinearoperator, plain LinearOperator), f8/f4, x as vector/(n,1)/matrix '
+                       '(C/F order), variants N/T/H/TT/TH, dot/@/*; every operand is compared bitwise with its snapshot after the operation; '
+                       'solver factories: dense C/F/transposed-view and sparse inputs, the same array object handed over several times '
+                       '(make_solver x2-3, make_kronecker_solver(A,A), fastdiag with repeated (K,M) pairs and K is M), applied twice, '
+                       'residual against the harness-side snapshot; non-trivial = every case; distinct by operands and argument')
     ctx.cov['input_distribution'] = dist
     ctx.cov['exhaustive'] = False
     for k in (0, len(cases) // 2, len(cases) - 1):
